@@ -85,70 +85,67 @@ Example C04_apply_nonvacuous :
 Proof. vm_compute. split; reflexivity. Qed.
 
 (* ---- the legacy root package (TotalityV4.v, model ImplV4.v) ----
-   FINDING: the legacy DecodePatch validates nothing, and the patch  [{"op":"replace","path":""}]
-   (replace of the whole document without value), which it accepts, panics on every document that
-   loads: Patch.replace dereferences the nil *lazyNode returned by op.value().
-   op_ok4 (a replace with path "" has a value member) is exactly the condition under which a
-   legacy operation does not panic, in every state and for every setting of the package variables
-   SupportNegativeIndices / AccumulatedCopySizeLimit; under it Apply / ApplyIndent never panic, for
-   every document byte string, every indent and arbitrary op names, path / from bytes and missing
-   or null members.  Unlike v5 the hypothesis is NOT discharged by DecodePatch
-   (C04_legacy_decoded_patch_can_panic). *)
+   Unconditional: the legacy DecodePatch validates nothing, so no hypothesis on the patch is made.
+   For every setting of the package variables SupportNegativeIndices / AccumulatedCopySizeLimit,
+   every indent, every document byte string and every operation list (arbitrary op names, path /
+   from bytes, missing or null members) Apply / ApplyIndent yield an output or an error.
+   History: the proof attempt found that the decoded patch  [{"op":"replace","path":""}]  panicked
+   on every document that loads (nil *lazyNode dereferenced in Patch.replace); confirmed in Go and
+   repaired (fix 1a7093a: ErrMissing).  C04_legacy_nonvacuous records those inputs. *)
 From JP Require Import ImplV4 TotalityV4.
 
-Theorem C04_legacy_apply_never_panics : forall g indent p doc,
-  forallb op_ok4 p = true -> api_apply4 g indent p doc <> Panic4.
+Theorem C04_legacy_apply_never_panics : forall g indent p doc, api_apply4 g indent p doc <> Panic4.
 Proof. exact api_apply4_never_panics. Qed.
 Print Assumptions C04_legacy_apply_never_panics.
 
-(* op_ok4 is exactly the panic condition of a single legacy operation, in every state *)
-Theorem C04_legacy_step_panics_iff : forall g st op, step4 g st op = Panic <-> op_ok4 op = false.
-Proof. exact step4_panics_iff. Qed.
-Print Assumptions C04_legacy_step_panics_iff.
+(* one legacy operation, in every state; the operation loop from every index and state *)
+Theorem C04_legacy_step_never_panics : forall g st op, step4 g st op <> Panic.
+Proof. exact step4_never_panics. Qed.
+Print Assumptions C04_legacy_step_never_panics.
 
-Theorem C04_legacy_unvalidated_replace_panics : forall g st op, op_ok4 op = false -> step4 g st op = Panic.
-Proof. exact op_not_ok4_panics. Qed.
-Print Assumptions C04_legacy_unvalidated_replace_panics.
+Theorem C04_legacy_apply_from_never_panics : forall g p i st, fst (apply4_from g i st p) <> Panic.
+Proof. exact apply4_from_never_panics. Qed.
+Print Assumptions C04_legacy_apply_from_never_panics.
 
-(* a panic of the legacy Apply always comes from a replace of the whole document without value *)
-Theorem C04_legacy_panic_cause : forall g indent p doc,
-  api_apply4 g indent p doc = Panic4 ->
-  exists op, In op p /\ op_kind op = KReplace /\ op_str op (B "path") = Ok [] /\ aget (B "value") op = None.
-Proof. exact api_apply4_panic_inv. Qed.
-Print Assumptions C04_legacy_panic_cause.
+(* the outcome is always an output or an error *)
+Theorem C04_legacy_apply_total : forall g indent p doc,
+  (exists out, api_apply4 g indent p doc = Out4 out) \/ (exists i e, api_apply4 g indent p doc = Err4 i e).
+Proof. exact api_apply4_total. Qed.
+Print Assumptions C04_legacy_apply_total.
 
-(* if the operations before a not-ok operation succeed, the legacy Apply panics *)
-Theorem C04_legacy_apply_panics_on_not_ok : forall g indent pre op rest doc t st' j,
-  doc <> [] -> parse doc = Some t -> loads4 t = true ->
-  (forall c, apply4_from g 0 (mkState4 c 0) pre = (Ok (st' c), j)) ->
-  op_ok4 op = false ->
-  api_apply4 g indent (pre ++ op :: rest) doc = Panic4.
-Proof. exact api_apply4_panics_on_not_ok. Qed.
-Print Assumptions C04_legacy_apply_panics_on_not_ok.
+(* DecodePatch followed by Apply / ApplyIndent: all byte strings on both sides *)
+Theorem C04_legacy_decode_then_apply_never_panics : forall g indent patch doc p,
+  api_decode4 patch = Some p -> api_apply4 g indent p doc <> Panic4.
+Proof. exact decode4_apply4_never_panics. Qed.
+Print Assumptions C04_legacy_decode_then_apply_never_panics.
 
-(* the legacy DecodePatch accepts a patch that panics on every document that loads *)
-Theorem C04_legacy_decoded_patch_can_panic : forall g indent doc t,
-  doc <> [] -> parse doc = Some t -> loads4 t = true ->
-  exists p, api_decode4 (B "[{""op"":""replace"",""path"":""""}]") = Some p /\ api_apply4 g indent p doc = Panic4.
-Proof. exact decoded_patch_can_panic. Qed.
-Print Assumptions C04_legacy_decoded_patch_can_panic.
+(* a replace of the whole document without value member: ErrMissing, in every state *)
+Theorem C04_legacy_replace_root_without_value : forall g st op,
+  op_kind op = KReplace -> op_str op (B "path") = Ok [] -> aget (B "value") op = None ->
+  step4 g st op = Err EMissing.
+Proof. exact replace_root_without_value. Qed.
+Print Assumptions C04_legacy_replace_root_without_value.
 
 Example C04_legacy_nonvacuous :
-  (* the counterexample, with the default package variables; the v5 DecodePatch rejects it *)
+  (* the formerly panicking inputs, with the default package variables and with others; the v5
+     DecodePatch rejects the patch text *)
   match api_decode4 (B "[{""op"":""replace"",""path"":""""}]") with
-  | Some p => api_apply4 (mkOpts4 true 0 None) [] p (B "{}") = Panic4
-              /\ api_apply4 (mkOpts4 true 0 None) [] p (B "null") = Panic4
-              /\ forallb op_ok4 p = false
+  | Some p => api_apply4 (mkOpts4 true 0 None) [] p (B "{}") = Err4 (Some 0%nat) EMissing
+              /\ api_apply4 (mkOpts4 true 0 None) [] p (B "[]") = Err4 (Some 0%nat) EMissing
+              /\ api_apply4 (mkOpts4 true 0 None) [] p (B "null") = Err4 (Some 0%nat) EMissing
+              /\ api_apply4 (mkOpts4 false 7 None) (B "  ") p (B "{""a"":[1,2]}") = Err4 (Some 0%nat) EMissing
   | None => False
   end
   /\ api_decode (B "[{""op"":""replace"",""path"":""""}]") = None
-  (* unvalidated operations that satisfy op_ok4: error or output, no panic *)
+  (* other unvalidated operations: error or output *)
   /\ match api_decode4 (B "[{""op"":""add"",""path"":""""},{""op"":""replace"",""path"":""""}]") with
      | Some p => api_apply4 (mkOpts4 true 0 None) [] p (B "[]") = Err4 (Some 0%nat) EMissing
      | None => False
      end
   /\ match api_decode4 (B "[{""op"":""replace"",""path"":""/a""},{""op"":""copy"",""path"":""/b""}]") with
-     | Some p => forallb op_ok4 p = true /\ api_apply4 (mkOpts4 true 0 None) [] p (B "{""a"":1}") = Err4 (Some 1%nat) EMissing
+     | Some p => api_apply4 (mkOpts4 true 0 None) [] p (B "{""a"":1}") = Err4 (Some 1%nat) EMissing
      | None => False
-     end.
+     end
+  (* the unchecked partialArray.set on its own would panic: replace reaches it only after a get *)
+  /\ con4_set (mkOpts4 false 0 None) (DAry []) (B "0") NNil = Panic.
 Proof. vm_compute. repeat split; reflexivity. Qed.
